@@ -275,11 +275,19 @@ type caseInput struct {
 
 var stats = map[string]int{}
 
+var hangs = map[string]int{}
+
 func runEntry(c *vh.Ctx, e *entry, b []byte, perm bool, from, stream string) mut.Outcome {
+	if hangs[e.name] >= 2 { // every hang leaks a spinning goroutine: two replayable inputs are enough
+		return mut.Outcome{Class: "skipped"}
+	}
 	asn1.AllowPermissiveParsing = perm
 	o := mut.Run(len(b), func() error { return e.f(b) })
 	asn1.AllowPermissiveParsing = false
 	stats[o.Class]++
+	if o.Class == "hang" {
+		hangs[e.name]++
+	}
 	if o.Class == "panic" || o.Class == "hang" || o.Class == "alloc" {
 		in := caseInput{Kind: "entry", Entry: e.name, Perm: perm, Hex: hex.EncodeToString(b), From: from}
 		c.Violation(violKey(e.name, o), fmt.Sprintf("%s (permissive=%v): %s", e.name, perm, o.Msg), stream, in)
@@ -499,7 +507,7 @@ func gen(c *vh.Ctx) {
 	// header stream: every 1-3 byte header prefix class, and structured headers up to 6 bytes
 	for v := 0; v < 1<<16; v++ {
 		b := []byte{byte(v >> 8), byte(v)}
-		if v%7 == 0 || b[0]&0x1f == 0x1f || b[1]&0x80 != 0 {
+		if v%29 == 0 || (b[0]&0x1f == 0x1f && v%5 == 0) || (b[1]&0x80 != 0 && v%11 == 0) {
 			headerCase(c, b, 0, v%2 == 0)
 		}
 	}
@@ -532,7 +540,7 @@ func gen(c *vh.Ctx) {
 		}
 		base128Case(c, append(append([]byte{}, tg...), 5), 0)
 	}
-	for v := 0; v < 1<<16; v += 3 {
+	for v := 0; v < 1<<16; v += 13 {
 		base128Case(c, []byte{byte(v >> 8), byte(v), 0x01}, 0)
 	}
 	// sequence-of counting
@@ -551,7 +559,9 @@ func gen(c *vh.Ctx) {
 		}
 		seqofCase(c, content, c.Bool())
 	}
-	seqofCase(c, bytes.Repeat([]byte{5, 0}, 20000), false)
+	// a long list: oracle only (the count must stay below len/2 and nothing may blow up)
+	feed(c, es, (&mut.Node{Tag: 16, Constructed: true, Content: bytes.Repeat([]byte{5, 0}, 20000)}).Encode(), "many-elements", "oracle", func(e *entry) bool { return strings.HasPrefix(e.name, "asn1.Unmarshal") })
+	seqofCase(c, bytes.Repeat([]byte{5, 0}, 300), false)
 	// SCT lists
 	ns := 80
 	if c.Thorough {
